@@ -60,7 +60,7 @@ class NonCopy { public: NonCopy(); NonCopy(const NonCopy&) = delete; ~NonCopy();
 union HasNonCopy { NonCopy nc; int i; };
 union PlainUnion { int i; float f; char bytes[8]; };
 class Base { public: virtual ~Base(); virtual int vmethod(int) = 0; virtual void other(); int base_field; };
-class Derived : public Base { public: int vmethod(int) override; void other() override; Derived &operator=(const Derived &); bool operator==(const Derived &) const;
+class Derived : public Base { public: int vmethod(int) override; void other() override; bool operator==(const Derived &) const;
   static int counter; int pub_field;
  protected: int prot_field; void prot_method();
  private: int priv_field; void priv_method(); Derived(int) ; };
@@ -226,27 +226,28 @@ VALUED = set()       # flags that take a value (from the table)
 
 
 def classify_exit(msg, flags1):
+    """(stable key, offending flag) of a clap rejection of bindgen's own flag list"""
     m = re.search(r"unexpected argument '([^']*)' found", msg)
     if m:
         a = m.group(1)
         idx = [i for i, f in enumerate(flags1) if f == a] or [i for i, f in enumerate(flags1) if f.startswith(a)]
         if not idx:
-            return "unexpected-argument"
+            return "unexpected-argument", a
         i = idx[0]
         if i == 0:
-            return "leading-dash-header"
+            return "leading-dash-header", ""
         if flags1[i - 1] in VALUED:
-            return "leading-dash-value:" + flags1[i - 1]
+            return "leading-dash-value", flags1[i - 1]
         if i >= 2 and flags1[i - 2] == "--module-raw-line":
-            return "leading-dash-value:--module-raw-line"
-        return "unknown-flag:" + a
-    m = re.search(r"invalid value '([^']*)' for '(--[\w-]+)", msg)
+            return "leading-dash-value", "--module-raw-line"
+        return "unknown-flag:" + a, a
+    m = re.search(r"invalid value '.*' for '(--[\w-]+)", msg)
     if m:
-        return "invalid-value:%s" % m.group(2)
+        return "invalid-value:%s" % m.group(1), m.group(1)
     m = re.search(r"a value is required for '(--[\w-]+)", msg)
     if m:
-        return "missing-value:" + m.group(1)
-    return "other"
+        return "missing-value:" + m.group(1), m.group(1)
+    return "other", ""
 
 
 def judge(job, ob):
@@ -255,7 +256,7 @@ def judge(job, ob):
     wit = {"setters": job.get("setters"), "flags0": job.get("flags0"), "flags1": a.get("flags")}
     if a.get("status") != "ok":
         if job.get("flags0") is not None and a.get("status", "").startswith("exit"):
-            return [("flag-rejected:" + classify_exit(a.get("msg", ""), job["flags0"]), dict(wit, stderr=a.get("msg", "")[:300]))]
+            return []                    # the command line rejected the input itself: nothing to round-trip
         if a.get("status") == "apply_err":
             raise C.ToolError("generator produced an inapplicable setter: %s %s" % (a.get("msg"), job.get("setters")))
         # a panic of command_line_flags()/generate() on the builder path is C12's subject; no round trip to judge
@@ -264,8 +265,8 @@ def judge(job, ob):
         return []
     st = b.get("status", "")
     if st.startswith("exit") or st == "flags_err":
-        return [("reparse-rejected:" + classify_exit(b.get("msg", ""), a["flags"]),
-                 dict(wit, child=st, stderr=b.get("msg", "")[:300]))]
+        key, flag = classify_exit(b.get("msg", ""), a["flags"])
+        return [("reparse-rejected:" + key, dict(wit, child=st, stderr=b.get("msg", "")[:300], offending_flag=flag))]
     if st == "panic":
         return [("reparse-panic", dict(wit, msg=b.get("msg")))]
     if st != "ok":
@@ -378,7 +379,7 @@ def run(res, tier):
     sens = M.uni(seqrows=["allowlisted_types", "module_lines", "input_headers"], seq_strs=["foo", "bar"])
     for mut in SENSITIVITY:
         tasks.append(("MC_Options_sens_%s.cfg" % mut, sens, "fail", 1))
-    strict = [("MC_Options_L2_single.cfg", full)] + [("MC_Options_L2_seq3.cfg", seq_unis[g]) for g in ("coupled", "maps")]
+    strict = [("MC_Options_L2_single.cfg", full), ("MC_Options_L2_pairs.cfg", full)] + [("MC_Options_L2_seq3.cfg", seq_unis[g]) for g in ("coupled", "maps")]
     for cfg, uf in strict:
         tasks.append((cfg, uf, "predict", 1))
     with concurrent.futures.ThreadPoolExecutor(max_workers=6) as ex:
@@ -393,10 +394,13 @@ def run(res, tier):
 
     # ---- behaviours ----------------------------------------------------------------------------
     nsim = 400 if thorough else 30
+    nseqsim = 600 if thorough else 60
     gtasks = [("Gen_Options_single.cfg", full, None, None), ("Gen_Options_pairs.cfg", full, None, None)]
     for g in U.SEQ_GROUPS:
-        gtasks.append(("Gen_Options_seq.cfg", seq_unis[g], nsim, 5))
-        gtasks.append(("Gen_Options_seq.cfg", seq_clean[g], nsim, 5))
+        gtasks.append(("Gen_Options_seq.cfg", seq_unis[g], nseqsim, 5))
+        gtasks.append(("Gen_Options_seq.cfg", seq_clean[g], nseqsim, 5))
+    for g in U.SEQ_GROUPS:                       # all ordered pairs of setters of a group, exhaustively
+        gtasks.append(("Gen_Options_seq2.cfg", seq_unis[g], None, None))
     gtasks += [("Gen_Options_sim.cfg", full, nsim, 26), ("Gen_Options_sim.cfg", clean, nsim, 26)]
     with concurrent.futures.ThreadPoolExecutor(max_workers=6) as ex:
         gres = list(ex.map(lambda t: M.gen(t[0], t[1], simulate=t[2], depth=t[3], tag=str(gtasks.index(t))), gtasks))
@@ -404,8 +408,16 @@ def run(res, tier):
     singles, pairs = gres[0], gres[1]
     npairs = len(pairs)
     if not thorough:
-        pairs = C.sample(pairs, 600, "c13-pairs")
+        # every model-level counterexample is replayed; the rest is sampled
+        pairs = [b for b in pairs if not b["rt"]["ok"]] + C.sample([b for b in pairs if b["rt"]["ok"]], 400, "c13-pairs")
     seqs = [x for b in gres[2:-2] for x in b if len(x["hist"]) >= 2]
+    nseq_enum = len(seqs)
+    bad, per = [], {}
+    for b in seqs:
+        if not b["rt"]["ok"] and (b["rt"]["why"] != "dash-value" or per.get(b["rt"]["why"], 0) < (200 if thorough else 20)):
+            per[b["rt"]["why"]] = per.get(b["rt"]["why"], 0) + 1
+            bad.append(b)
+    seqs = bad + C.sample([b for b in seqs if b["rt"]["ok"]], 4000 if thorough else 280, "c13-seqs")
     sims = gres[-2] + gres[-1]
     seen, uniq = set(), []
     for kind, lst in (("single", singles), ("pair", pairs), ("seq", seqs), ("sim", sims)):
@@ -425,7 +437,7 @@ def run(res, tier):
     obs = run_jobs(jobs, "main")
 
     agg = {}
-    ndrift = confirmed = mispredicted = 0
+    ndrift = confirmed = mispredicted = nshrunk = 0
     kinds = {}
     for jid, (kind, b, j) in meta.items():
         ob = obs[jid]
@@ -438,14 +450,20 @@ def run(res, tier):
             want = render_flags(b["flags"])
             if real != want:
                 ndrift += 1
-                if sorted(real) != sorted(want) and len(res.drift) < 12:
-                    k = sorted(set(real) ^ set(want))
-                    res.drift.append("command_line_flags differs from the modelled ToFlags for %s: %s" % (fields_of(j)[:3], k[:6]))
-        if v and len(j["setters"]) > 3:
-            v = shrink(j, v, rows)
+                k = sorted(set(real) ^ set(want))
+                msg = "command_line_flags differs from the modelled ToFlags: %s" % (k[:6] or "order only")
+                if msg not in res.drift and len(res.drift) < 12:
+                    res.drift.append(msg)
+        if len(j["setters"]) > 2 and any(k == "bindings-differ" for k, _ in v):
+            # attribute to the smallest sub-configuration that still differs (bounded effort)
+            if nshrunk < 10:
+                nshrunk += 1
+                v = shrink(j, v, rows)
+            else:
+                v = [(k + ":unshrunk" if k == "bindings-differ" else k, det) for k, det in v]
         for key, det in v:
             key = key if not key.startswith("bindings-differ") or ":" in key else key + ":" + ",".join(fields_of(j))[:100]
-            agg.setdefault(key, []).append(dict(det, kind=kind, predicted_by_model=b["rt"]))
+            agg.setdefault(key, []).append(dict(det, kind=kind, predicted_by_model=b["rt"], fields=fields_of(j)))
         if not b["rt"]["ok"]:
             if v:
                 confirmed += 1
@@ -455,12 +473,13 @@ def run(res, tier):
                     res.drift.append("model predicts a round-trip failure (%s) that the real code does not show: %s"
                                      % (b["rt"]["why"], [x for x in j["setters"][1:]][:3]))
     res.add(behaviours={"single": len(singles), "pairs_enumerated": npairs, "pairs_run": len(pairs),
-                        "sequences": len(seqs), "configs_of_25": len(sims)}, replayed=kinds,
+                        "sequences_generated": nseq_enum, "sequences_run": len(seqs), "configs_of_25": len(sims)}, replayed=kinds,
             model_predicted_failures_confirmed=confirmed, model_predicted_failures_not_reproduced=mispredicted,
             flag_list_shape_mismatches=ndrift)
 
     # ---- flag <-> documented method, defaults, CLI-only flags -------------------------------------
     fm_jobs, fm_meta = [], {}
+    by_setters = {json.dumps(j["setters"]): j for j in jobs}
     k = 0
     for b in singles:
         s = b["hist"][0]
@@ -476,13 +495,20 @@ def run(res, tier):
         k += 1
         jm = {"id": "fm%04dm" % k, "setters": [["header", H], render_setter(rows, s2)], "gen": True,
               "serial": s["field"].startswith("clang_macro_fallback")}
-        jf = {"id": "fm%04df" % k, "flags0": [H] + fp, "gen": True, "serial": jm["serial"]}
-        fm_jobs += [jm, jf]
+        jf = {"id": "fm%04df" % k, "flags0": [H] + fp + ["--experimental"], "gen": True, "serial": jm["serial"]}
+        prev = by_setters.get(json.dumps(jm["setters"]))
+        if prev:
+            jm = prev                      # already run in the main batch
+            fm_jobs += [jf]
+        else:
+            fm_jobs += [jm, jf]
         fm_meta[k] = (s2, fp, jm, jf)
     dflt = [{"id": "dfltm", "setters": [["header", H]], "gen": True}, {"id": "dfltf", "flags0": [H], "gen": True}]
     cli_jobs = [{"id": "cli%02d" % i, "flags0": [H] + f, "gen": True} for i, f in enumerate(CLI_ONLY)]
     obs2 = run_jobs(fm_jobs + dflt + cli_jobs, "flags")
-    nfm = 0
+    obs2.update(obs)
+    nfm = nrej = 0
+    rejected = set()
     for k, (s2, fp, jm, jf) in fm_meta.items():
         om, of = obs2[jm["id"]], obs2[jf["id"]]
         am, af = om.get("a", {}), of.get("a", {})
@@ -491,7 +517,10 @@ def run(res, tier):
         nfm += 1
         wit = {"method": jm["setters"][1], "flag": fp}
         if af.get("status") != "ok":
-            agg.setdefault("flag-rejected:%s" % fp[0].split("=")[0], []).append(dict(wit, status=af.get("status"), stderr=af.get("msg", "")[:300]))
+            # the command line validates its input more strictly than the method (empty paths, TYPE::FIELD=ATTR
+            # syntax, values that look like flags): no effect to compare
+            nrej += 1
+            rejected.add(fp[0].split("=")[0])
             continue
         if am["flags"] != af["flags"]:
             agg.setdefault("flag-method-differ:%s:flags" % fp[0].split("=")[0], []).append(dict(wit, method_flags=am["flags"], flag_flags=af["flags"]))
@@ -511,11 +540,15 @@ def run(res, tier):
             name = j["flags0"][1]
             key = "flag-lost:" + name if key.startswith(("bindings-differ", "flags-differ")) else key
             agg.setdefault(key, []).append(dict(det, kind="cli-only"))
-    res.add(flag_method_pairs_compared=nfm, cli_only_flags=len(cli_jobs))
+    res.add(flag_method_pairs_compared=nfm, cli_only_flags=len(cli_jobs), flag_path_values_rejected_by_cli=nrej)
+    if rejected:
+        res.notes.append("flag path: value rejected by the command line itself (not compared) for %s" % sorted(rejected))
 
     for key, dets in sorted(agg.items()):
         dets.sort(key=lambda x: len(json.dumps(x.get("setters") or x.get("flags0") or x.get("method") or "")))
-        res.violation(key, {"count": len(dets), "first": dets[0]})
+        res.violation(key, {"count": len(dets), "first": dets[0],
+                            "offending_flags": sorted({x["offending_flag"] for x in dets if x.get("offending_flag")}),
+                            "fields": sorted({f for x in dets if len(x.get("fields", [])) <= 3 for f in x.get("fields", [])})[:80]})
 
     # ---- non-vacuity: tampered observations must be flagged by the same judge -------------------
     tam = 0
@@ -574,6 +607,7 @@ def shrink(job, viol, rows):
 
 def replay(res, path):
     C.build()
+    VALUED.update(r["flag"] for r in U.raw_table()["rows"] if r.get("flag") and r["class"] not in ("bool", "nocli"))
     data = json.load(open(path))
     jobs = []
     for i, v in enumerate(data.get("violations", [])):
